@@ -1053,8 +1053,8 @@ func checkWritten(t fataler, fc *fontCase, data []byte, boxes []box4, fontBox bo
 		fail("hhea ascender/descender/lineGap = %d/%d/%d", i16(hhea, 4), i16(hhea, 6), i16(hhea, 8))
 	}
 	rise, run := i16(hhea, 18), i16(hhea, 20)
-	if dlt := angleDiff(math.Atan2(float64(rise), float64(run))-math.Pi/2, f.ItalicAngle/180*math.Pi); dlt > caretTol {
-		fail("hhea caret slope %d/%d is %.3g rad away from the italic angle %v deg", rise, run, dlt, f.ItalicAngle)
+	if dlt, tol, ok := caretOK(math.Atan2(float64(rise), float64(run))-math.Pi/2, f.ItalicAngle/180*math.Pi); !ok {
+		fail("hhea caret slope %d/%d is %.3g rad (> %.3g) away from the italic angle %v deg", rise, run, dlt, tol, f.ItalicAngle)
 	}
 
 	// OS/2
